@@ -27,6 +27,13 @@ def run(prop, tier, replay):
         binp = vlib.go_build(sc, "./cmd/remotescen", "remotescen", overlay=ov)
         if replay:
             rf = json.load(open(replay))
+            if rf.get("kind") == "outage":
+                for _ in range(3):
+                    pr = vlib.run([binp, "-outage", str(rf["rounds"]), "-workers", "8"], ok_codes=(0, 1), timeout=3000)
+                    if pr.returncode == 1:
+                        break
+                print(pr.stdout.strip()[:1500])
+                return pr.returncode
             p = sc.path("one.ndjson")
             open(p, "w").write(json.dumps(rf["case"]) + "\n")
             pr = vlib.run([binp, "-cases", p, "-workers", "1"], ok_codes=(0, 1), timeout=300)
@@ -77,6 +84,28 @@ def run(prop, tier, replay):
                 v.violation(rf, "%s [%s case %d step %d: %s]" % (f["what"][:400], tag, f["index"], f["step"], " ".join(f["steps"])))
             if v.violations:
                 break
+        if not v.violations:
+            # traffic while the peer goes away and comes back (free-running rounds, side by side), judged by the clause that
+            # holds whatever happened to the messages of the outage: a later send makes a fresh attempt that succeeds
+            rounds = 96 if tier == "quick" else 480
+            def outage():
+                pr = vlib.run([binp, "-outage", str(rounds), "-workers", "8"], ok_codes=(0, 1), timeout=3000)
+                return json.loads(pr.stdout)
+            rep = outage()
+            cov["outage_rounds"] = rep["rounds"]
+            fails = rep["failures"] or []
+            if any(f.startswith("harness:") for f in fails):
+                raise vlib.Broken("remotescen: " + [f for f in fails if f.startswith("harness:")][0])
+            if fails:
+                # it takes a particular interleaving: seen again in up to two more batches it counts
+                again = []
+                for _ in range(2):
+                    again = [f for f in (outage()["failures"] or []) if not f.startswith("harness:")]
+                    if again:
+                        break
+                if not again:
+                    raise vlib.Broken("outage failure did not show again: " + fails[0])
+                v.violation({"kind": "outage", "rounds": rounds, "what": fails[0]}, fails[0] + " [traffic during an outage, %d rounds]" % rounds)
         r, _ = fam_wire.tlc_cases(sc, "MCRemoteLink.tla", cfg("T1", 4, 1, forget=False, export=False), "reg")
         cov["regression_configs"] = {"ForgetOnUnreachable=FALSE": r.violated or "NOT VIOLATED"}
         if r.violated not in ("C17_FreshAttempt",):
